@@ -13,11 +13,11 @@ def run(r):
                 ("NM", 3, AB, 8, [(s + i) % 8 for i in range(4)], {}),
                 ("F2", 3, AB, 8, [(s + i) % 8 for i in range(2)], {"nameall": True}),
                 ("HID2", 4, [97, 98, 99, 100], 8, [(s + i) % 8 for i in range(2)], {}),
-                ("F3", 3, AB, 32, [(s + i) % 32 for i in range(4)], {}), ("SNG", 4, AB, 1, [0], {})]
+                ("F3", 3, AB, 32, [(s + i) % 32 for i in range(4)], {}), ("SNG", 4, AB, 1, [0], {}), ("TRNL", 5, [97, 98, 32], 1, [0], {})]
         rnd = [(400, dict(maxlen=5, named=2)), (300, dict(maxlen=5, named=0, seed_off=1)), (200, dict(maxlen=4, named=1, base=0, seed_off=2))]
     else:
         fams = [("CAT", 3, AB, 1, [0], {}), ("F1", 3, AB, 48, [(s + 13) % 48], {}), ("NM", 3, AB, 24, [(s + 5) % 24], {"nameall": True}),
-                ("HID2", 3, [97, 98, 99, 100], 12, [(s + 5) % 12], {}), ("SNG", 3, AB, 2, [(s + 1) % 2], {}), ("OPTLR", 3, AB, 2, [(s + 1) % 2], {})]
+                ("HID2", 3, [97, 98, 99, 100], 12, [(s + 5) % 12], {}), ("SNG", 3, AB, 2, [(s + 1) % 2], {}), ("OPTLR", 3, AB, 2, [(s + 1) % 2], {}), ("TRNL", 4, [97, 98, 32], 1, [0], {})]
         rnd = [(100, dict(maxlen=5, named=2)), (60, dict(maxlen=4, named=2, base=0, seed_off=3))]
     parsefam.run_plan(r, {"props": ["C04"], "families": fams, "random": rnd})
     r.extra["long_inputs"] = parsefam.long_inputs(r, ["C04"], [70, 130] if r.tier == "thorough" else [66 + r.seed % 9])
